@@ -45,6 +45,7 @@ def configs(tier, seed):
     for nS, nT, D, N in shapes:
         out.append(dict(name="blocks nS=%d nT=%d D=%d N=%d" % (nS, nT, D, N), h="blocks", nS=nS, nT=nT, D=D, N=N))
     out.append(dict(name="blocks no data", h="blocks", nS=2, nT=2, D=1, N=0))
+    out.append(dict(name="blocks nS=2 nT=2 D=1 N=2, second observation arrives after a sampler step", h="blocks", nS=2, nT=2, D=1, N=2, warm=1))
     if not q:
         out.append(dict(name="blocks nS=2 nT=2 D=1 N=3 (sampled structures)", h="blocks", nS=2, nT=2, D=1, N=3, sample=40))
     out.append(dict(name="sweep order", h="sweep", nS=2, nT=2, D=1))
@@ -119,6 +120,11 @@ def _mk_state(ctx, sc, cfg):
         if (code * 2654435761) % 1000 >= cfg["sample"]:
             ctx.assume(False)
     for i in range(N):
+        if cfg.get("warm") is not None and i == cfg["warm"]:
+            # a history: a sampler step is taken with only the first observations in, then more data arrive (the next plate).
+            # Whatever that step derived from the data must not outlive the new observations; its parameter values are
+            # overwritten below by the arbitrary state, so only such left-overs can make a difference.
+            m.mcmc_step()
         m._update(ys[i], cl[i], d1[i], d2[i])
     s = _Sym(ctx)
     P = dict(W=s.mat(nS, D, s.real), W0=s.vec(nS, s.real), V2=s.mat(nT, D, s.real), V1=s.mat(nT, D, s.real), V0=s.vec(nT, s.real),
